@@ -392,6 +392,33 @@ void use_lcd_{j}() {{
             ok = bool(lits) and c_unescape(lits[0]) == s
             r.check(ok, "_to_c_expr/string-literal-escaped", (pm, tce), f"the Python literal {src} is translated to {out!r}")
 
+    # ---- C06-DEFAULTS ------------------------------------------------------------------------
+    # a compile witness: for every type label of the lattice (scalars, lists, lists of lists) the declaration the parser would
+    # hoist - `<_cpp_type(label)> v = <_default_value_for_type(that type)>;` - is handed to clang together with the list helpers
+    r = cx.rule("C06-DEFAULTS", "for every type label (bool/int/float/String, lists and lists of lists of them) the hoisted declaration `T v = <default for T>;` built from _cpp_type and _default_value_for_type type-checks (clang, with the list helper snippet)", floor=12, exhaustive=True)
+    cppf, dvf = pm.func("_cpp_type"), pm.func("_default_value_for_type")
+    labels_ = ["bool", "int", "float", "String"]
+    labels_ += [f"list[{x}]" for x in labels_] + [f"list[list[{x}]]" for x in ("int", "float", "String", "bool")]
+    decls_ = []
+    for lab_ in labels_:
+        try:
+            ct_ = dl.Interp(pm).call(cppf, [lab_])
+            dv_ = dl.Interp(pm, opaque={"re.fullmatch": re.fullmatch, "re.match": re.match}).call(dvf, [ct_.value]) if ct_.kind == "return" else None
+        except dl.Unsupported as e:
+            raise AnalysisError(f"_cpp_type/_default_value_for_type left the evaluable subset: {e}")
+        if ct_.kind != "return" or dv_ is None or dv_.kind != "return":
+            r.fail(f"default[{lab_}]/computed", (pm, dvf), f"label {lab_}: _cpp_type -> {ct_!r}, default -> {dv_!r}")
+            continue
+        decls_.append((lab_, ct_.value, dv_.value))
+    tu_ = "#include <Arduino.h>\n" + lit.table(em, "LIST_HELPER_SNIPPET") + "\n" + "".join(f"{ct} v_{i} = {dv};\n" for i, (_l, ct, dv) in enumerate(decls_))
+    errs_ = cxx.typecheck(tu_)
+    for i_, (lab_, ct_, dv_) in enumerate(decls_):
+        mine = [e_ for e_ in errs_ if f" v_{i_} =" in e_]
+        r.check(not mine, f"default[{lab_}]/declaration-compiles", (pm, dvf), f"`{ct_} v = {dv_};` (label {lab_}) does not compile: {mine[0].split('   [')[0] if mine else ''}", sample=f"{ct_} v = {dv_}")
+    stray_ = [e_ for e_ in errs_ if not any(f" v_{i_} =" in e_ for i_ in range(len(decls_)))]
+    if stray_:
+        raise AnalysisError("default-declaration witness does not compile for another reason: " + stray_[0])
+
     # ---- C06-HELPER-PAIR ---------------------------------------------------------------------
     r = cx.rule("C06-HELPER-PAIR", "every expression translation that mentions a list/len helper registers it, and the emitter includes a helper snippet iff it is registered", floor=8)
     for src, want in (("[1, 2]", "list"), ("xs[0]", "list"), ("xs.append(1)", "list"), ("xs.remove(1)", "list"), ("[i * 2 for i in range(3)]", "list"), ("len(xs)", "len"), ("len(s)", "len"), ("len('abc')", None)):
